@@ -3580,17 +3580,17 @@ impl ContinuityStore {
     fn load_next_seq_for(&self, continuity_id: &str) -> Result<u64, io::Error> {
         // Number from the truth log when it is readable: after a crash between the log append and
         // the sidecar append the sidecar lags by one frame, and numbering from its tail would
-        // re-issue a seq that is already in the log. A lagging sidecar is rebuilt here as well.
+        // re-issue a seq that is already in the log. The thread's cache family is re-derived from
+        // the frames just replayed: the appends that follow extend every member, and extending a
+        // stale member (rolled back, cut, or lagging - its own tail looks fine) would leave a
+        // well-formed file with a hole that nothing detects later.
         if let Ok(events) = self
             .event_log
             .replay_stream(StreamKind::Continuity, continuity_id)
         {
             if let Some(last) = events.last() {
-                let cached = self.stream_cache.try_read_last_seq(continuity_id);
-                if !matches!(cached, Ok(Some(seq)) if seq == last.seq) {
-                    self.stream_cache
-                        .rebuild_best_effort(continuity_id, &events);
-                }
+                self.stream_cache
+                    .rebuild_best_effort(continuity_id, &events);
                 return Ok(last.seq.saturating_add(1));
             }
         }
